@@ -28,7 +28,7 @@ func runC11(c *Ctx) {
 		"(ack) the acknowledgement section of handleRequest is entered from each operation arm only with the lease in state Discover or Allocated established by a dominating test, the address acknowledged is lease.Addr.IP, taken from IPOffer only on the Discover path, and the refusal condition of the selecting arm contains the hardware, transaction-id, offered-address and leased-address mismatches. " +
 		"(free) DECLINE frees a lease only when server id, address and hardware address match; expiry frees by DHCPExpiry. Not decided: uniqueness over interleavings of several clients (for example two clients holding offers for one address), timing."
 	r.Rule("offer", "addresses are offered only if free in the lease table, unknown to the session and inside the subnet", 12)
-	r.Rule("ack", "acknowledgements require an outstanding offer or lease of the same client, address and transaction", 8)
+	r.Rule("ack", "acknowledgements require an outstanding offer or lease of the same client, address and transaction", 9)
 	r.Rule("free", "leases are freed only by their owner's DECLINE or by expiry", 4)
 
 	alloc := c.P.Method(dhcpRel, "Handler", "allocIPOffer")
@@ -249,6 +249,18 @@ func runC11(c *Ctx) {
 			}
 		}
 	}
+	if hr := c.P.Method(dhcpRel, "Handler", "handleRequest"); hr != nil {
+		ok, why, n := selectingAcceptTable(hr)
+		st := core.Proved
+		if !ok {
+			st = core.Violated
+			if n == 0 {
+				st = core.Undecided
+			}
+		}
+		r.Add(core.Obligation{Rule: "ack", Key: "ack selecting accepts only the offered transaction or the current lease", Func: core.FuncName(hr), Pos: c.P.Pos(hr.Pos()), Status: st,
+			Basis: fmt.Sprintf("truth table of the refusal condition over %d consistent valuations of 7 atoms", n), Detail: why})
+	}
 	// ---- free ----
 	if fn := c.P.Method(dhcpRel, "Handler", "handleDecline"); fn != nil {
 		core.EachInstr(fn, func(i ssa.Instruction) {
@@ -464,7 +476,7 @@ func runC12(c *Ctx) {
 		})
 	}
 	// never ACK what cannot be honoured: every entry into the acknowledgement section has an offer or a lease
-	r.Rule("ack", "the acknowledgement section is entered only with an outstanding offer or lease", 3)
+	r.Rule("ack", "the acknowledgement section is entered only with an outstanding offer or lease", 4)
 	if hr := c.P.Method(dhcpRel, "Handler", "handleRequest"); hr != nil {
 		var join *ssa.BasicBlock
 		core.EachInstr(hr, func(i ssa.Instruction) {
@@ -491,6 +503,14 @@ func runC12(c *Ctx) {
 			}
 		}
 	}
+	if hr := c.P.Method(dhcpRel, "Handler", "handleRequest"); hr != nil {
+		ok, why, n := selectingAcceptTable(hr)
+		if !ok && n == 0 {
+			r.Add(core.Obligation{Rule: "ack", Key: "ack selecting accepts only the offered transaction or the current lease", Func: core.FuncName(hr), Pos: c.P.Pos(hr.Pos()), Status: core.Undecided, Detail: why})
+		} else {
+			add("ack", "ack selecting accepts only the offered transaction or the current lease", hr, nil, ok, fmt.Sprintf("truth table of the refusal condition over %d consistent valuations of 7 atoms", n), why)
+		}
+	}
 	// destination
 	if fn := c.P.Method(dhcpRel, "Handler", "ProcessPacket"); fn != nil {
 		ok := false
@@ -515,4 +535,130 @@ func runC12(c *Ctx) {
 		})
 		add("destination", "destination broadcast iff no source address or broadcast flag", fn, nil, ok, "broadcast on: SrcAddr.IP == 0 | Broadcast()", "the broadcast destination is not selected by exactly SrcAddr.IP == 0 || Broadcast()")
 	}
+}
+
+// selectingAcceptTable decides the accept condition of the selecting arm of handleRequest exactly: the refusal
+// (NAK) site's path condition is a DNF over seven atoms; for every consistent valuation of the atoms on which no
+// disjunct holds (the request goes on to the ACK), the lease must be the client's own (hardware address), must not
+// be free, and must match the request: in state Discover the same transaction id and the offered address, in state
+// Allocated the leased address. Returns ok, a description of the first offending valuation, and the number of
+// valuations examined (0 = the site was not found or contains an atom outside the table: undecided).
+func selectingAcceptTable(hr *ssa.Function) (ok bool, why string, n int) {
+	atoms := []struct{ name, text string }{
+		{"state=Free", "(LEASE.State==0)"},
+		{"state=Discover", "(LEASE.State==1)"},
+		{"state=Allocated", "(LEASE.State==2)"},
+		{"chaddr matches", "bytes.Equal(LEASE.Addr.MAC,(packet.DHCP4).CHAddr(arg1))"},
+		{"xid matches", "bytes.Equal(LEASE.XID,(packet.DHCP4).XId(arg1))"},
+		{"offered!=requested", "(LEASE.IPOffer!=φ)"},
+		{"leased!=requested", "(LEASE.Addr.IP!=φ)"},
+	}
+	idx := map[string]int{}
+	for i, a := range atoms {
+		idx[a.text] = i
+	}
+	for _, s := range callsIn(hr, nameIs("nakPacket")) {
+		ins := s.(ssa.Instruction)
+		isSel := false
+		for _, g := range guardsOf(ins) {
+			if strings.HasSuffix(g.Text, "(φ==φ.SubnetConfig.DHCPServer)") && g.Pol {
+				isSel = true
+			}
+		}
+		if !isSel {
+			continue
+		}
+		type lit struct {
+			v   int
+			neg bool
+		}
+		var dnf [][]lit
+		for _, d := range pathDNF(ins.Block()) {
+			var conj []lit
+			for _, t := range strings.Split(shortLease(d), " && ") {
+				t = strings.TrimSpace(t)
+				if t == "" {
+					continue
+				}
+				neg := strings.HasPrefix(t, "!")
+				t = strings.TrimPrefix(t, "!")
+				v, known := idx[t]
+				if !known {
+					// the same comparison written with the opposite operator
+					alt := ""
+					switch {
+					case strings.Contains(t, "=="):
+						alt = strings.Replace(t, "==", "!=", 1)
+					case strings.Contains(t, "!="):
+						alt = strings.Replace(t, "!=", "==", 1)
+					}
+					if v2, ok2 := idx[alt]; ok2 && alt != "" {
+						v, known, neg = v2, true, !neg
+					}
+				}
+				if !known {
+					return false, "the refusal condition of the selecting arm tests something outside the table: " + t, 0
+				}
+				conj = append(conj, lit{v, neg})
+			}
+			dnf = append(dnf, conj)
+		}
+		if len(dnf) == 0 {
+			return false, "the refusal condition of the selecting arm was not recovered", 0
+		}
+		for m := 0; m < 1<<len(atoms); m++ {
+			val := func(i int) bool { return m&(1<<i) != 0 }
+			states := 0
+			for i := 0; i < 3; i++ {
+				if val(i) {
+					states++
+				}
+			}
+			if states > 1 {
+				continue
+			}
+			n++
+			nak := false
+			for _, conj := range dnf {
+				all := true
+				for _, l := range conj {
+					if val(l.v) == l.neg {
+						all = false
+						break
+					}
+				}
+				if all {
+					nak = true
+					break
+				}
+			}
+			if nak {
+				continue
+			}
+			bad := ""
+			switch {
+			case val(0):
+				bad = "nothing is offered or leased to the client (state Free)"
+			case !val(3):
+				bad = "the lease belongs to another hardware address"
+			case val(1) && !val(4):
+				bad = "the lease is an offer made in a different transaction (xid differs)"
+			case val(1) && val(5):
+				bad = "the address requested is not the one offered"
+			case val(2) && val(6):
+				bad = "the address requested is not the client's lease"
+			}
+			if bad != "" {
+				var desc []string
+				for i, a := range atoms {
+					if val(i) {
+						desc = append(desc, a.name)
+					}
+				}
+				return false, fmt.Sprintf("a selecting REQUEST is acknowledged although %s (valuation: %s)", bad, strings.Join(desc, ", ")), n
+			}
+		}
+		return true, "", n
+	}
+	return false, "the refusal site of the selecting arm was not found", 0
 }
